@@ -284,7 +284,26 @@ func (x *SX) Run(fd *ast.FuncDecl) []*Path {
 		st.stack = []*types.Func{fo}
 	}
 	x.noteAddrTaken(fd.Body)
+	var named []types.Object
+	if fd.Type.Results != nil {
+		for _, fl := range fd.Type.Results.List {
+			for _, nm := range fl.Names {
+				if o := x.c.Info.Defs[nm]; o != nil {
+					st.env[o] = x.zero(o.Type())
+					named = append(named, o)
+				}
+			}
+		}
+	}
 	outs := x.block(fd.Body.List, st)
+	for i := range outs {
+		if (outs[i].kind == "return" || outs[i].kind == "") && len(outs[i].vals) == 0 && len(named) > 0 {
+			for _, o := range named {
+				outs[i].vals = append(outs[i].vals, outs[i].st.env[o])
+			}
+			outs[i].kind = "return"
+		}
+	}
 	return x.finish(outs)
 }
 
@@ -1529,6 +1548,19 @@ func (x *SX) call(call *ast.CallExpr, st *sxState, nres int) []evalOut {
 				ao.st.epoch++
 				tt := t
 				ao.st.steps = append(ao.st.steps, Step{Kind: "call", Call: &tt, Node: call})
+			}
+			// a function literal handed to an opaque callee may run and assign the locals it captures: those are unknown afterwards
+			for _, a := range args {
+				if l, ok := a.(TLit); ok {
+					if fl, isFn := l.Node.(*ast.FuncLit); isFn {
+						x.loopID++
+						for _, o := range x.assignedIn(fl.Body) {
+							if o.Pos() < fl.Pos() || o.Pos() >= fl.End() {
+								ao.st.env[o] = TLoop{o, x.loopID}
+							}
+						}
+					}
+				}
 			}
 			res = append(res, evalOut{outcome: outcome{st: ao.st}, val: t})
 		}
